@@ -194,7 +194,9 @@ def _evaluate(e, env, bits=64):
                 try:
                     args_.append(evaluate(a, env, bits))
                 except Uneval:
-                    args_.append(None)
+                    if name not in env.get("@lenient", ()):
+                        raise
+                    args_.append(None)      # the override ignores arguments it cannot see (e.g. `self`)
             return env[fnk](*args_)
         prog = env.get("@prog")
         if prog is not None and e[1] in prog.fns:
